@@ -80,6 +80,31 @@ func treeMethod(w *World, ra *repoAnchors, name string) *ssa.Function {
 	return w.Method(ra.treeT, name)
 }
 
+// treeRecursive: the recursive worker behind an exported tree method (Find -> the lookup, Delete ->
+// the removal): a method of the tree type that the exported method calls and that calls itself.
+// Resolved structurally so that renaming the worker does not lose the anchor.
+func treeRecursive(w *World, ra *repoAnchors, exported string) *ssa.Function {
+	top := treeMethod(w, ra, exported)
+	if top == nil {
+		return nil
+	}
+	for _, ci := range callsIn(top) {
+		callee := ci.Common().StaticCallee()
+		if callee == nil || callee.Blocks == nil || callee.Signature.Recv() == nil || derefNamed(callee.Signature.Recv().Type()) == nil {
+			continue
+		}
+		if derefNamed(callee.Signature.Recv().Type()).Obj() != ra.treeT.Obj() && derefNamed(callee.Signature.Recv().Type()).Origin().Obj() != ra.treeT.Origin().Obj() {
+			continue
+		}
+		for _, cj := range callsIn(callee) {
+			if g := cj.Common().StaticCallee(); g != nil && (g == callee || (g.Origin() != nil && g.Origin() == callee.Origin())) {
+				return callee
+			}
+		}
+	}
+	return nil
+}
+
 // nodeWriters: functions (tree methods and helpers, all instantiations) that store into a field of a
 // tree node, directly or through an element of a node's slice field.
 func nodeWrites(fn *ssa.Function) []ssa.Instruction {
@@ -1045,9 +1070,9 @@ func c06ChangeDetection(w *World, r *Report, ra *repoAnchors) {
 // leave the node, and with it the others' routes, in place.
 func c06NodeRemoval(w *World, r *Report, ra *repoAnchors) {
 	ri := r.Rule("C06.6", 2, "while deleting, a child node is detached from the tree only behind a check that it holds no values any more (rules sharing a path expression survive the removal of one of them)")
-	del := treeMethod(w, ra, "delNode")
+	del := treeRecursive(w, ra, "Delete")
 	if del == nil {
-		r.Undecided(ri, "tree method delNode not found")
+		r.Undecided(ri, "the recursive removal behind Tree.Delete was not found")
 		return
 	}
 	r.Analysed(w.FnName(del))
@@ -1058,7 +1083,11 @@ func c06NodeRemoval(w *World, r *Report, ra *repoAnchors) {
 			continue
 		}
 		callee := c.Common().StaticCallee()
-		if callee == nil || !strings.HasPrefix(callee.Name(), "deleteChild") || len(c.Common().Args) < 2 {
+		// the detaching helper: another method of the tree that is handed a (child) node
+		if callee == nil || callee == del || (callee.Origin() != nil && callee.Origin() == del.Origin()) || callee.Signature.Recv() == nil || len(c.Common().Args) < 2 || len(nodeWrites(callee)) == 0 {
+			continue
+		}
+		if pt, isPtr := c.Common().Args[1].Type().Underlying().(*types.Pointer); !isPtr || !types.Identical(pt.Elem(), c.Common().Args[0].Type().Underlying().(*types.Pointer).Elem()) {
 			continue
 		}
 		n++
